@@ -171,11 +171,24 @@ pub fn eval_from_bytes_bitcoin(bytes: &[u8], version_id: u8) -> EvaluatedScript 
         EvaluatedScript::new(address, ScriptPattern::Pay2Taproot)
     } else if script.is_witness_program() {
         EvaluatedScript::new(address, ScriptPattern::WitnessProgram)
-    } else if script.is_multisig() {
+    } else if is_multisig(script) {
         EvaluatedScript::new(address, ScriptPattern::Pay2MultiSig)
     } else {
         EvaluatedScript::new(address, ScriptPattern::NotRecognised)
     }
+}
+
+/// `Script::is_multisig` counts the pushed keys in a `u8`, so a script with more than 255 pushes
+/// after the leading number overflows that counter (a panic in builds with overflow checks).
+/// No multisig script has that many keys.
+fn is_multisig(script: &Script) -> bool {
+    let pushes = script
+        .instructions()
+        .skip(1)
+        .take_while(|i| matches!(i, Ok(Instruction::PushBytes(_))))
+        .take(256)
+        .count();
+    pushes < 256 && script.is_multisig()
 }
 
 /// Workaround to parse address from p2pk scripts
